@@ -90,6 +90,29 @@ func (e *Env) Fail(oracle, class, format string, a ...any) {
 	e.mu.Unlock()
 }
 
+// Known reports whether class is listed in the known-findings file for this property (the driver passes
+// the list). A check that tolerates a known finding MUST count it with ProbeKnown so that the driver
+// prints the KNOWN-FINDING line.
+func (e *Env) Known(oracle, class string) bool {
+	knownOnce.Do(func() {
+		for _, c := range strings.Split(os.Getenv("VERIF_KNOWN_CLASSES"), "\n") {
+			if c != "" {
+				knownSet[c] = true
+			}
+		}
+	})
+	if knownSet[oracle+":"+class] {
+		e.ProbeN("known:"+oracle+":"+class, 1)
+		return true
+	}
+	return false
+}
+
+var (
+	knownOnce sync.Once
+	knownSet  = map[string]bool{}
+)
+
 // Failed reports whether a violation has been recorded.
 func (e *Env) Failed() bool {
 	e.mu.Lock()
